@@ -288,3 +288,59 @@ MANIFEST = dict(
          "byte-identical; C03_bytes: the same at text level for any parser that inverts the printer on that document.",
     note="The JSON parser is not modelled (assumption: it inverts the printer up to dict order), the printer is (JsonText.dumps).",
     ref="7/C03")
+
+
+# ---------------------------------------------------------------------------------------------------------------------------------
+# builder jsonparse: the stdlib JSON parser is modelled (lean/ProductMD/Model/JsonParse.lean, proved to invert the printer in
+# Proofs/JsonRoundTrip.lean; C03_bytes_parsed).  The model stays tied to CPython: random printer output / other layouts / mutated
+# texts (harness/json_diff.py) and the texts the real manifest classes write go through both parsers on every run.
+import json_diff  # noqa: E402
+
+
+def _json_reader_checks(self, ctx):
+    drv, rng, tier = ctx["driver"], ctx["rng"], ctx["tier"]
+    if drv is None:
+        return []
+    fails = []
+    stats, bad = json_diff.run(drv, rng, 600 if tier == "quick" else 12000)
+    ctx["dist"]["json_reader_vs_cpython"] = stats
+    # the texts the library itself writes (dumps() of generated manifests), through the modelled reader
+    texts = []
+    for case in self.cases(rng, tier, 45 if tier == "quick" else 900):
+        r = self.real(case)
+        t = r.get("text1") or (r.get("out", {}).get("ok") or {}).get("text1")
+        if t and json_diff.sendable(t):
+            texts.append(t)
+    outs = drv.call([{"op": "json_parse_ord", "args": {"text": t}} for t in texts])
+    nbad = 0
+    for t, o in zip(texts, outs):
+        r = json_diff.real_loads(t)
+        why = json_diff.compare_one(t, r, o)
+        if why or "ok" not in r:
+            nbad += 1
+            bad.append({"text": t, "lim": 4300, "real": r, "model": o, "why": why or "library text not accepted", "stream": "library"})
+    ctx["dist"]["json_reader_on_library_texts"] = {"texts": len(texts), "bytes": sum(len(t) for t in texts), "disagreements": nbad}
+    nf, fbad = json_diff.float_tokens(drv, rng, 60 if tier == "quick" else 1500)
+    ctx["dist"]["json_float_tokens"] = {"tokens": nf, "disagreements": len(fbad)}
+    for b in fbad[:2]:
+        fails.append({"case": {"op": "json_float_tok", "args": {"tok": b["tok"]}}, "observed": {"model": b["model"]},
+                      "required": {"documented_language": b["spec"], "printed_by_json_dumps": b["printed_by_json_dumps"]},
+                      "kind": "json-float-token-model-vs-cpython-disagreement"})
+    for b in bad[:3]:
+        fails.append({"case": {"op": "json_parse_ord", "args": {"text": b["text"][:4000], "lim": b["lim"]}},
+                      "observed": {"model": b["model"], "why": b["why"], "stream": b["stream"]}, "required": {"cpython": b["real"]},
+                      "kind": "json-reader-model-vs-cpython-disagreement"})
+    return fails
+
+
+C03.extra_checks = _json_reader_checks
+C03.assumptions = C03.assumptions + [
+    "json.load is modelled by JsonParse.parse (C03_bytes_parsed needs no parser hypothesis); the model is tied to CPython 3.12's "
+    "json.loads by differential runs on printer output, other layouts, mutated texts and the library's own texts (json_diff); "
+    "interpreter recursion limit and int/str digit limit beyond the configured value are outside"]
+MANIFEST = dict(MANIFEST,
+                text=MANIFEST["text"] + " C03_bytes_parsed: the same at text level through the modelled json.loads (JsonParse.parseWith), with no "
+                     "assumption on the parser left (side conditions: float tokens are float literals, integers within int()'s digit limit).",
+                note="The JSON printer (JsonText.dumps) and the JSON parser (JsonParse.parse, Model/JsonParse.lean) are both modelled; "
+                     "Proofs/JsonRoundTrip.lean proves that the parser inverts the printer on every JSON-representable document; the parser "
+                     "model is tied to CPython's json.loads by differential runs (harness/json_diff.py) on every check.")
